@@ -252,9 +252,9 @@ class Spec(EvalableModel):
             if not isinstance(leaf, Component):
                 continue
 
-            global_fanout = 1
+            global_fanout = leaf.get_fanout()
             for p in parents:
-                if isinstance(p, Spatialable):
+                if isinstance(p, Spatialable) and not isinstance(p, Compute):
                     global_fanout *= p.get_fanout()
 
             orig: Component = self.arch.find(leaf.name)
